@@ -68,3 +68,5 @@ pub use static_lut::{
 
 #[cfg(volute_verif)]
 pub use canonization::{verif_canon_sequences, verif_last_sequences};
+#[cfg(all(volute_verif, feature = "rand"))]
+pub use operations::verif_rng;
